@@ -7,7 +7,8 @@ RULE = ('case = (instance recipe of a stdlib type with a bundled printer: dateti
         'datetime.timezone with/without name and sub-minute offsets, pytz utc/named/localized/FixedOffset, fold), '
         'timedelta (0, +-1us, min, max, 365d multiples, random), timezone, OrderedDict, defaultdict, deque, Counter, '
         'ChainMap, mappingproxy, UUID, Enum/Flag members, SimpleNamespace, namedtuples (0..n fields, renamed, typing), '
-        'struct_time, partial/partialmethod, exceptions, pure paths; payloads are built-in value trees) x placement in '
+        'struct_time, partial/partialmethod, exceptions, pure paths; payloads are built-in value trees or, one level deep, '
+        'other stdlib instances) x placement in '
         '{top, list element, dict value, dict key, inside OrderedDict/deque, five levels deep, the same object at two positions, '
         'two equal instances built separately, key and value of one dict} x (width, ribbon, indent). '
         'Oracle: no "raised an exception" fallback warning; eval with the module in scope gives an object of the same '
@@ -77,7 +78,12 @@ def strategy(tier):
     S = values.strategies()
     st = S['st']
     parts = stdvals.std_strategy(S)
-    inst = st.one_of(*[parts[k] for k in sorted(parts)])
+    inner = st.one_of(*[parts[k] for k in sorted(parts)])
+    # second level: stdlib instances as payloads of stdlib containers (compared by type and repr inside the payload)
+    payload = st.one_of(st.recursive(S['leaf'], S['value_ext'], max_leaves=4), inner, st.lists(inner, max_size=2).map(lambda xs: ['list', xs]))
+    nested = stdvals.std_strategy(S, payload=payload)
+    outer = st.one_of(*[nested[k] for k in ('odict', 'ddict', 'deque', 'chainmap', 'mproxy', 'ns', 'ntuple', 'partial', 'exc')])
+    inst = st.one_of(inner, inner, inner, outer)
     cfg = st.fixed_dictionaries({'width': S['width'], 'ribbon_width': S['width'], 'indent': st.sampled_from([1, 2, 4, 8])})
     return st.fixed_dictionaries({'v': inst, 'place': st.sampled_from(PLACES), 'cfg': cfg})
 
@@ -142,13 +148,13 @@ def oracle(case):
         return core.viol('not-evaluable', '%r\n%s' % (e, p.text[:600]), labels)
     try:
         got = back[1]['k'] if where == 'rebuilt-pair' else unplace(back, where)
-        if where == 'rebuilt-pair' and stdvals.std_equal(v, back[0], eqv.same):
-            return core.viol('not-equal', 'first of two equal instances: %s\n%s' % (stdvals.std_equal(v, back[0], eqv.same), p.text[:600]), labels)
-        if where == 'twice' and stdvals.std_equal(v, back[0], eqv.same):
-            return core.viol('not-equal', 'first occurrence: %s\n%s' % (stdvals.std_equal(v, back[0], eqv.same), p.text[:600]), labels)
+        if where == 'rebuilt-pair' and stdvals.std_equal(v, back[0], stdvals.deep_same):
+            return core.viol('not-equal', 'first of two equal instances: %s\n%s' % (stdvals.std_equal(v, back[0], stdvals.deep_same), p.text[:600]), labels)
+        if where == 'twice' and stdvals.std_equal(v, back[0], stdvals.deep_same):
+            return core.viol('not-equal', 'first occurrence: %s\n%s' % (stdvals.std_equal(v, back[0], stdvals.deep_same), p.text[:600]), labels)
     except Exception as e:
         return core.viol('wrong-shape', '%r\n%s' % (e, p.text[:600]), labels)
-    why = stdvals.std_equal(v, got, eqv.same)
+    why = stdvals.std_equal(v, got, stdvals.deep_same)
     if why:
         return core.viol('not-equal', '%s\n%s' % (why, p.text[:600]), labels)
     return core.ok(where != 'top' or not trivial_instance(r), labels)
